@@ -18,6 +18,7 @@ def install(m):
     C['math/bits.Mul64'] = lambda m, a: tm.mul64(a[0], a[1])
     C['errors.New'] = _errors_new
     C['fmt.Errorf'] = _fmt_errorf
+    C['errors.Is'] = _errors_is
     C['bytes.Equal'] = _bytes_equal
     C['crypto/subtle.XORBytes'] = _xorbytes
     C['bytes.Clone'] = _bytes_clone
@@ -311,6 +312,35 @@ def _fmt_errorf(m, a):
                 wrapped.append(v)
     o = m.new_obj(None, tree=[ErrObj('fmt:' + fmtstr, tuple(wrapped))], label='error:fmt')
     return X.Iface('*fmt.wrapError', X.Ptr(o, ()))
+
+
+def _errors_is(m, a):
+    """errors.Is over the error objects of this model: identity of the error value, or of any error it wraps (errors.New /
+    fmt.Errorf %w chains, package-level sentinel errors from the globals dump)"""
+    err, target = a
+
+    def same(x, y):
+        if x is None or y is None:
+            return x is None and y is None
+        if not (isinstance(x, X.Iface) and isinstance(y, X.Iface)) or x.tname != y.tname:
+            return False
+        vx, vy = x.val, y.val
+        if isinstance(vx, X.Ptr) and isinstance(vy, X.Ptr):
+            return vx.obj is vy.obj and vx.path == vy.path
+        return vx is vy
+
+    def walk(e, depth=0):
+        if e is None or depth > 16:
+            return False
+        if same(e, target):
+            return True
+        v = e.val if isinstance(e, X.Iface) else None
+        if isinstance(v, X.Ptr) and v.obj is not None and isinstance(v.obj.tree, list) and v.obj.tree and isinstance(v.obj.tree[0], ErrObj):
+            return any(walk(w, depth + 1) for w in v.obj.tree[0].wrapped)
+        return False
+    if target is None:
+        return err is None
+    return walk(err)
 
 
 def _bytes_equal(m, a):
